@@ -47,7 +47,7 @@ def _views(env: Env, out: Outcome, traces: list, label: str, rng, monitor: bool 
         states = rebuild.live_states(tr)
         end = int(getattr(tr, "end_time", 0) or 1000)
         if env.tier == "thorough" or env.replay is not None:
-            ks = rebuild.pick_prefixes(rng, len(ticks), 2)  # the whole log and two prefixes of it
+            ks = rebuild.pick_prefixes(rng, len(ticks), 1)  # the whole log and one prefix of it
         elif rng.random() < 0.34:
             ks = [len(ticks) if rng.random() < 0.5 else rng.randint(0, len(ticks))]  # quick: every third run, one point
         else:
@@ -57,6 +57,8 @@ def _views(env: Env, out: Outcome, traces: list, label: str, rng, monitor: bool 
             ks = sorted(set(ks) | {min(want.get("resume", want)["prefix"], len(ticks))})
         for k in ks:
             clock = rng.choice([end, end, end + rng.randint(1, 60), rng.randint(0, 3000), 0])
+            if isinstance(want, dict) and want.get("resume", want).get("prefix") == k and isinstance(want.get("resume", want).get("clock"), int):
+                clock = want.get("resume", want)["clock"]  # replaying a recorded case: its clock
             obs = rebuild.observe(tr, k, clock)
             out.evaluations += 1
             out.count(f"view:{label}:prefix:" + ("full" if k == len(ticks) else "empty" if k == 0 else "mid"))
